@@ -246,3 +246,12 @@ package keeper
 //@ func (k Keeper) SetCurrentFeeds
 //@ modifies Store_feeds
 //@ ensures Store_feeds == store(old(Store_feeds), types.CurrentFeedsStoreKey, enc(types.CurrentFeeds{feeds, ctx.BlockTime().Unix(), ctx.BlockHeight()}))
+
+// ---- frame of the store invariants: each record family is written only through these functions ------------------------
+// (the invariants above are proved writer by writer - "a lock has its index entry", "a record is filed under its own id";
+// a new function that Sets or Deletes such keys directly is outside that argument: ground obligation `writers/...`)
+//@ writers PriceStoreKey: Keeper.SetPrice
+//@ writers SignalTotalPowerByPowerIndexKey: Keeper.deleteSignalTotalPowerByPowerIndex, Keeper.setSignalTotalPowerByPowerIndex
+//@ writers SignalTotalPowerStoreKey: Keeper.SetSignalTotalPower, Keeper.deleteSignalTotalPower
+//@ writers ValidatorPriceListStoreKey: Keeper.SetValidatorPriceList
+//@ writers VoteStoreKey: Keeper.DeleteVote, Keeper.SetVote
